@@ -386,7 +386,7 @@ package app
 //@   assert_at return#* C01.caught_how [C01]: result0 ==> (reached("Contain", 1) && resultof("Contain", 1)) || (reached("CheckAsyncSwitchAllowed", 1) && resultof("CheckAsyncSwitchAllowed", 1))
 
 //@ func (*app.App).getNodePositions$1
-//@   parelem positions e: e.host == host && e.gtidset != nil
+//@   parelem positions e: e.host == host && e.gtidset != nil && regd(app.cluster, host)
 //@   ensures present [par,C01]: result == nil ==> (exists i int :: in_range(i, positions) && positions[i].host == host && positions[i].gtidset != nil)
 //@   ensures C01.pos_noeffect [C01]: tick == old(tick)
 //@   assert_at Lock#1 C01.pos_complete [C01]: (sstatus == nil ==> resultof("GTIDExecutedParsed", 1, 1) == nil && gtidset == resultof("GTIDExecutedParsed", 1, 0)) && (sstatus != nil ==> gtidset == resultof("ParseGtidSet", 1) && textOf(gtidset) == resultof("GetExecutedGtidSet", 1) && (resultof("GetRetrievedGtidSet", 1) != "" ==> reached("Update", 1) && resultof("Update", 1) == nil && g_updated[gtidset] == resultof("GetRetrievedGtidSet", 2))) && resultof("GetReplicaStatus", 1, 1) == nil
@@ -795,10 +795,6 @@ package app
 //@   requires c20 [safety]: statesOK(app, clusterState)
 //@ func (*app.App).performSwitchover$3
 //@   requires c20 [safety]: statesOK(app, clusterState)
-//@ func (*app.App).getNodePositions$1
-//@   requires c20 [safety]: regd(app.cluster, host)
-//@ func (*app.App).getNodePositions
-//@   requires c20 [safety]: forall i int :: in_range(i, activeNodes) ==> regd(app.cluster, activeNodes[i])
 //@ func (*app.App).waitForCatchUp
 //@   requires c20 [safety]: node != nil && gtidset != nil
 //@ func (*app.App).CheckAsyncSwitchAllowed
@@ -806,7 +802,7 @@ package app
 //@ func (*app.App).stopActiveNodeOptimization
 //@   requires c20 [safety]: regd(app.cluster, oldMaster) && optOK(app)
 //@ func (*app.App).optimizationPhase
-//@   requires c20 [safety]: optOK(app) && statesOK(app, clusterState) && listOK(clusterState, activeNodes)
+//@   requires c20 [safety]: optOK(app) && statesOK(app, clusterState)
 //@ func (*app.App).checkHAReplicasRunning$1
 //@   requires c20 [safety]: regd(app.cluster, host) && local != nil
 //@ func (*app.App).leaveMaintenance
@@ -859,3 +855,5 @@ package app
 //@   ensures C20.master_is_key [C20]: result1 == nil ==> has(clusterState, result0)
 //@ func (*app.App).leaveMaintenance
 //@   ensures C20.registry [C20]: true
+//@ func (*app.App).getNodePositions
+//@   ensures C20.pos_registered [C20]: forall i int :: in_range(i, result0) ==> regd(app.cluster, result0[i].host)
